@@ -87,7 +87,14 @@ func (zp *ZoneParser) generate(l lex) (RR, bool) {
 	zp.sub.includeDepth, zp.sub.includeAllowed = zp.includeDepth, zp.includeAllowed
 	zp.sub.SetIncludeFS(zp.fsys)
 	zp.sub.generateDisallowed = true
-	zp.sub.SetDefaultTTL(defaultTtl)
+	if zp.defttl != nil {
+		// The generated lines stand where the directive stands: an omitted
+		// TTL is the one in force there ($TTL, the last stated TTL, or the
+		// configured default).
+		zp.sub.defttl = zp.defttl
+	} else {
+		zp.sub.SetDefaultTTL(defaultTtl)
+	}
 	return zp.subNext()
 }
 
